@@ -1,4 +1,5 @@
 import Sozu.Pipe.Lemmas
+import Sozu.ProxyProto.Props
 /-
 C18 — property theorems for the Pipe two-buffer relay. Only property
 statements (`C18_*`) and their non-vacuity `example`s live here.
@@ -93,5 +94,134 @@ theorem C18_check_connections_corners (p : Pipe) :
     (p.fst = .normal → p.bst = .normal → p.check = true) ∧
     (p.fst = .closed → p.bst = .closed → p.check = false) := by
   constructor <;> intro h1 h2 <;> simp [Pipe.check, h1, h2]
+
+
+/-! ## whole histories at session level (kernel queues, FINs, readiness loop) -/
+
+/-- `C18_pipe_exact` lifted to the session: for **every** schedule of wake-ups,
+    each preceded by any batch of outside events (client / backend sends, FINs
+    from either side, send-buffer room on either side) and driven through the
+    readiness loop of `ready_inner`: what the backend received is a prefix of
+    what the client sent, what the client received is a prefix of what the
+    backend sent, and each equals it when the session is still open and that
+    direction is drained (buffer and kernel queue empty). -/
+theorem C18_session_exact (cap : Nat) (wakes : List (List Ev)) :
+    let r := ({ p := Pipe.new cap } : Sess).runWakes wakes
+    r.1.p.wroteB <+: sentC wakes.flatten ∧ r.1.p.wroteF <+: sentB wakes.flatten ∧
+    (r.2 = .cont → r.1.p.fbuf.data = [] → r.1.k.cIn = [] → r.1.p.wroteB = sentC wakes.flatten) ∧
+    (r.2 = .cont → r.1.p.bbuf.data = [] → r.1.k.bIn = [] → r.1.p.wroteF = sentB wakes.flatten) := by
+  have h := runWakes_exact wakes { p := Pipe.new cap } (fifo_new cap true)
+  simpa [Pipe.new] using h
+
+example : (({ p := Pipe.new 8 } : Sess).runWakes
+    [[.backendRoom 3, .clientSend [1, 2, 3, 4, 5]], [.backendRoom 100, .backendSend [9, 8], .clientRoom 1],
+     [.clientRoom 10, .backendFin]]).1.p.wroteB = [1, 2, 3, 4, 5] := by decide +kernel
+
+/-- End-of-stream only after drain, backend → client, over whole histories: take
+    any history of handler calls that left the session open with the client side
+    still writable; if the next `backend_readable` (any result but a socket
+    error) or `backend_hup` closes the session, then every byte ever read from
+    the backend has been written to the client. (The client → backend mirror is
+    false in the code: `C18_eof_after_drain_counterexample`,
+    `C18_session_fin_counterexample`.) -/
+theorem C18_eof_after_drain_history (cap : Nat) (ops : List Op) (last : Op)
+    (hlast : (∃ g r, r ≠ SR.error ∧ last = .backendReadable g r) ∨ last = .backendHup)
+    (hopen : ((Pipe.new cap).run ops).2 = .cont)
+    (hf : ((Pipe.new cap).run ops).1.fst = .normal ∨ ((Pipe.new cap).run ops).1.fst = .writeOpen)
+    (hclose : ((Pipe.new cap).run (ops ++ [last])).2 = .close) :
+    ((Pipe.new cap).run (ops ++ [last])).1.wroteF = ((Pipe.new cap).run (ops ++ [last])).1.readB := by
+  have hfifo := fifo_run (ops ++ [last]) _ (fifo_new cap true)
+  rw [run_snoc, if_pos hopen] at hclose hfifo ⊢
+  have hd : (((Pipe.new cap).run ops).1.step last).1.bbuf.data = [] := by
+    rcases hlast with ⟨g, r, hr, rfl⟩ | rfl
+    · exact C18_eof_after_drain_partial _ g r hf hr hclose
+    · exact C18_eof_after_drain_hup _ hclose
+  rw [hfifo.2, hd, List.append_nil]
+
+example : ((Pipe.new 16).run ([.backendReadable [1, 2, 3] .wouldBlock, .writable [(2, .wouldBlock)],
+    .backendReadable [] .closed, .writable [(5, .cont)]] ++ [.backendHup])).2 = .close ∧
+    ((Pipe.new 16).run ([.backendReadable [1, 2, 3] .wouldBlock, .writable [(2, .wouldBlock)],
+    .backendReadable [] .closed, .writable [(5, .cont)]] ++ [.backendHup])).1.wroteF = [1, 2, 3] := by decide +kernel
+
+/-! ## composition: proxy-protocol state, then the pipe -/
+
+/-- Send mode, whole session, every write schedule of the header phase and every
+    wake-up schedule of the pipe phase: the backend socket receives either a
+    strict prefix of the header and nothing else (the session did not upgrade),
+    or **exactly one** header built from the true client and listener addresses
+    followed by a prefix of the bytes the client sent. -/
+theorem C18_send_session_exact (peer loc : SockAddr) (wss : List (List WRes)) (cap : Nat)
+    (wakes : List (List Ev)) :
+    ((sendSession peer loc wss cap wakes).1.length < (encode (Header.new .proxy peer loc)).length ∧
+      (sendSession peer loc wss cap wakes).1 <+: encode (Header.new .proxy peer loc)) ∨
+    (∃ pre, (sendSession peer loc wss cap wakes).1 = encode (Header.new .proxy peer loc) ++ pre ∧
+      pre <+: sentC wakes.flatten) :=
+  send_session_exact_all peer loc wss cap wakes
+
+example : (sendSession (.v4 [127, 0, 0, 1] 40000) (.v4 [127, 0, 0, 1] 8080) [[.ok 10, .wouldBlock], [.ok 18]] 64
+    [[.backendRoom 100, .clientSend [104, 105]]]).1 =
+    encode (Header.new .proxy (.v4 [127, 0, 0, 1] 40000) (.v4 [127, 0, 0, 1] 8080)) ++ [104, 105] := by decide +kernel
+
+/-- Expect mode, whole session, when the header ends on a read-window boundary
+    (28 / 52 / 232 bytes — the hypothesis that excludes the open over-read F12):
+    for every fragmentation of `header ++ payload` the state upgrades with the
+    header's addresses having dropped nothing, and whatever pipe schedule follows
+    (the later arrivals delivered by any wake-ups), the backend receives a prefix
+    of exactly the payload — no header byte, no lost byte, no reordering. -/
+theorem C18_expect_session_exact_partial (H payload : Bytes) (h : Header) (chunks : List Bytes)
+    (hv : parse H = .ok h H.length) (hb : H.length = 28 ∨ H.length = 52 ∨ H.length = 232)
+    (hc : chunks.flatten = H ++ payload) :
+    ∃ unread later,
+      ({} : ExpectK).run chunks = .upgraded (some h.addr) H.length [] unread later ∧
+      ∀ (cap : Nat) (wakes : List (List Ev)), sentC wakes.flatten = later.flatten →
+        ((Sess.afterExpect cap unread).runWakes wakes).1.p.wroteB <+: payload := by
+  obtain ⟨unread, later, h1, h2⟩ := C18_expect_any_fragmentation_partial H payload h chunks hv hb hc
+  refine ⟨unread, later, h1, ?_⟩
+  intro cap wakes hs
+  have hx := (runWakes_exact wakes (Sess.afterExpect cap unread)
+    (fifo_of_eq (fifo_new cap true) rfl rfl rfl rfl rfl rfl)).1
+  simp only [Sess.afterExpect, Pipe.new, List.nil_append] at hx
+  rw [hs, h2] at hx
+  exact hx
+
+/-- F12 at session level: behind a 16-byte LOCAL header the five payload bytes that
+    shared its segment never reach the pipe: its kernel queue starts empty, so no
+    schedule can make the backend receive them. -/
+theorem C18_expect_session_exact_counterexample :
+    ({} : ExpectK).run [encode ⟨.loc, 0, .unspec⟩ ++ [71, 69, 84, 32, 47]] =
+      .upgraded (some .unspec) 16 [71, 69, 84, 32, 47] [] [] ∧
+    ((Sess.afterExpect 16384 []).runWakes [[.backendRoom 65536], [.backendRoom 65536]]).1.p.wroteB = [] := by
+  decide +kernel
+
+example : ∃ unread later, ({} : ExpectK).run
+      [(encode (Header.new .proxy (.v4 [1, 2, 3, 4] 5) (.v4 [6, 7, 8, 9] 10))) ++ [71, 69], [84]] =
+      .upgraded (some (.v4 [1, 2, 3, 4] [6, 7, 8, 9] 5 10)) 28 [] unread later ∧
+      ((Sess.afterExpect 64 unread).runWakes [[.backendRoom 100], later.map Ev.clientSend]).1.p.wroteB = [71, 69, 84] :=
+  ⟨[71, 69], [[84]], by decide +kernel, by decide +kernel⟩
+
+/-! ## idle timers -/
+
+/-- The timers are re-armed by every byte in either direction: on a timeline in
+    which each activity comes less than `min(front_timeout, back_timeout)` after
+    the previous byte activity (client→backend or backend→client), the timers
+    never close the session — however long the stream and whichever side is silent. -/
+theorem C18_timer_rearmed (fd bd t0 : Nat) (tl : List (Nat × TAct))
+    (hp : paced (min fd bd) t0 tl) : (Timers.start fd bd t0).run tl = none :=
+  timers_paced_never_fire tl _ t0 ⟨rfl, rfl⟩ hp
+
+example : (Timers.start 2000 2000 0).run
+    [(100, .backendBytes), (1900, .backendBytes), (3800, .backendBytes), (5700, .writeOnly), (5750, .clientBytes)] = none :=
+  C18_timer_rearmed 2000 2000 0 _ (by simp [paced])
+
+/-- An idle session is closed no earlier than the timeout: when the timers close
+    the session at time `T`, `T` is exactly `min(front_timeout, back_timeout)`
+    after the last byte activity (or after the start when there was none). -/
+theorem C18_timer_not_early (fd bd t0 : Nat) (tl : List (Nat × TAct)) (T : Nat)
+    (h : (Timers.start fd bd t0).run tl = some T) :
+    ∃ l, T = l + min fd bd ∧ (l = t0 ∨ ∃ a, a ≠ TAct.writeOnly ∧ (l, a) ∈ tl) :=
+  timers_not_early tl _ t0 T ⟨rfl, rfl⟩ h
+
+example : (Timers.start 2000 2000 0).run [(100, .backendBytes), (1500, .writeOnly), (2200, .clientBytes)] = some 2100 := by
+  decide
 
 end Sozu.Pipe
